@@ -78,8 +78,53 @@ class AFile(Abstract):
         return None
 
 
+def deep_call(fn: Any) -> Any:
+    """run fn() on a thread with a large stack: one frame of evaluated code costs about a dozen frames of the evaluator, and
+    the repository's length-set algebra nests one level per field"""
+    import sys
+    import threading
+
+    box: Dict[str, Any] = {}
+
+    def work() -> None:
+        try:
+            box["value"] = fn()
+        except BaseException as ex:  # handed to the caller's thread
+            box["error"] = ex
+
+    from .. import fold as _fold
+
+    old_limit = sys.getrecursionlimit()
+    old_size = threading.stack_size()
+    old_depth = _fold.MAX_DEPTH[0]
+    try:
+        _fold.MAX_DEPTH[0] = 20000
+        threading.stack_size(1 << 30)
+        sys.setrecursionlimit(400000)
+        t = threading.Thread(target=work)
+        t.start()
+        t.join()
+    finally:
+        threading.stack_size(old_size)
+        sys.setrecursionlimit(old_limit)
+        _fold.MAX_DEPTH[0] = old_depth
+    if "error" in box:
+        raise box["error"]
+    return box.get("value")
+
+
 def universal_newlines(s: str) -> str:
     return s.replace("\r\n", "\n").replace("\r", "\n")
+
+
+_SHARED: Dict[str, Any] = {}
+
+
+def _shared_job(i: int) -> Dict[str, Any]:
+    try:
+        return _SHARED["fe"].job(_SHARED["jobs"][i])
+    except AnalysisError as ex:
+        return {"analysis_error": str(ex)}
 
 
 class FrontEnd:
@@ -93,6 +138,7 @@ class FrontEnd:
         self.contents: Dict[str, str] = {}
         mod = ctx.repo.module("_namespace")
         self.hook = path_hook(ctor_hook(ctx, module_call_hook(ctx, mod, [], [], record=[], base_hook=self._base_hook)))
+        self.hook.calls_only = True  # each of the four layers looks at ast.Call nodes only
 
     # ------------------------------------------------------------------ what is provided from outside the repository
     def _base_hook(self, e: ast.expr, f: Folder) -> Any:
@@ -102,14 +148,14 @@ class FrontEnd:
         last = name.split(".")[-1]
         if name == "open" and e.args and "open" not in f.env:
             p = f.fold(e.args[0])
-            return self._open(str(p), e)
+            return self._open(str(p), e, f)
         if isinstance(e.func, ast.Attribute) and e.func.attr in ("read_text", "open") and not e.args:
             try:
                 recv = f.fold(e.func.value)
             except Unfoldable:
                 return NotImplemented
             if isinstance(recv, APath):
-                fo = self._open(str(recv.resolve()), e)
+                fo = self._open(str(recv.resolve()), e, f)
                 return fo.read() if e.func.attr == "read_text" else fo
         if last == "_get_grammar" and name.split(".")[0] not in f.env:
             return AGrammar(self.matcher)
@@ -126,11 +172,17 @@ class FrontEnd:
                     return self.visit_tree(recv, node, f)
         return NotImplemented
 
-    def _open(self, path: str, e: ast.AST) -> AFile:
+    def _open(self, path: str, e: ast.AST, f: Optional[Folder] = None) -> AFile:
         self.opened.append(path)
         if path not in self.contents:
             raise Raised("FileNotFoundError", e)
-        # text mode with universal newlines, as `open(path)` / `Path.read_text()` do
+        # text mode with universal newlines, as `open(path)` / `Path.read_text()` do - unless the call asks otherwise
+        if isinstance(e, ast.Call) and f is not None:
+            for k in e.keywords:
+                if k.arg == "newline" and f.fold(k.value) is not None:
+                    return AFile(self.contents[path])
+                if k.arg == "mode" and "b" in str(f.fold(k.value)):
+                    raise Unfoldable("the definition is opened in binary mode")
         return AFile(universal_newlines(self.contents[path]))
 
     # ------------------------------------------------------------------ parsimonious.NodeVisitor.visit
@@ -216,7 +268,7 @@ class FrontEnd:
             args = [APath(root), []]
         out: Dict[str, Any] = {"raised": None, "path": None, "line": None, "result": None, "text": None}
         try:
-            out["result"] = call_fn(self.ctx, fn, args, kwargs or {}, hook=self.hook, keep=tuple(fn.module.functions))
+            out["result"] = deep_call(lambda: call_fn(self.ctx, fn, args, kwargs or {}, hook=self.hook, keep=tuple(fn.module.functions)))
         except Raised as r:
             out["raised"] = r.cls_name
             exc = getattr(r, "exc", None)
@@ -254,6 +306,26 @@ class FrontEnd:
             return (k, self._text(v))
         return v
 
+    def type_digest(self, dt: Any) -> Dict[str, Any]:
+        """the structure of an attribute's type through its public properties (not its text)"""
+        k = dt._cls_.name
+        d: Dict[str, Any] = {"kind": k}
+        names = {m for c in self.repo.mro(dt._cls_) if isinstance(c, ClassInfo) for m in c.methods}
+        if "capacity" in names and "element_type" in names:
+            d["capacity"] = self._prop(dt, "capacity")
+            d["element"] = self.type_digest(self._prop(dt, "element_type"))
+        elif "cast_mode" in names:
+            d["bits"] = self._prop(dt, "bit_length")
+            f = Folder({"o": dt}, self.repo, dt._cls_.module, None, self.hook)
+            d["truncated"] = f.fold(ast.parse("o.cast_mode == o.CastMode.TRUNCATED", mode="eval").body)
+            d["saturated"] = f.fold(ast.parse("o.cast_mode == o.CastMode.SATURATED", mode="eval").body)
+        elif "full_name" in names:
+            d["full_name"] = self._prop(dt, "full_name")
+            d["version"] = tuple(self._prop(dt, "version"))
+        elif "bit_length" in names:
+            d["bits"] = self._prop(dt, "bit_length")
+        return d
+
     def digest(self, t: Any) -> Dict[str, Any]:
         """everything the property statements mention about a composite, as plain values"""
         d: Dict[str, Any] = {"kind": t._cls_.name, "text": self._text(t)}
@@ -282,11 +354,14 @@ class FrontEnd:
             d["inner"] = self.digest(self._prop(t, "inner_type"))
         attrs = []
         for a in self._prop(t, "attributes"):
-            row: Dict[str, Any] = {"kind": a._cls_.name, "type": self._text(self._prop(a, "data_type")), "name": self._prop(a, "name"), "doc": self._prop(a, "doc")}
+            dt = self._prop(a, "data_type")
+            row: Dict[str, Any] = {"kind": a._cls_.name, "type": self._text(dt), "shape": self.type_digest(dt), "name": self._prop(a, "name"), "doc": self._prop(a, "doc"), "text": self._text(a)}
             if a._cls_.name == "Constant":
                 row["value"] = self.value_digest(self._prop(a, "value"))
             attrs.append(row)
         d["attributes"] = attrs
+        d["fields"] = [self._prop(a, "name") for a in self._prop(t, "fields")]
+        d["constants"] = [self._prop(a, "name") for a in self._prop(t, "constants")]
         try:
             bls = self._prop(t, "bit_length_set")
             d["min"], d["max"] = self._prop(bls, "min"), self._prop(bls, "max")
@@ -299,6 +374,52 @@ class FrontEnd:
     def read(self, files: Dict[str, str], **kw: Any) -> Dict[str, Any]:
         """run + digests of the returned composites"""
         out = self.run(files, **kw)
+        deep_call(lambda: self._digests(out))
+        return out
+
+    # ------------------------------------------------------------------ many independent reads, on several cores
+    def job(self, j: Dict[str, Any]) -> Dict[str, Any]:
+        """one read described by plain values: files, entry, root (read_namespace) / targets + lookup (read_files), kwargs,
+        handler (a recording print handler is passed), cwd; answers with plain values (no instances)"""
+        from ..absint import Recorder
+
+        h = Recorder("print") if j.get("handler") else None
+        entry = j.get("entry", "read_namespace")
+        if entry == "read_namespace":
+            args: List[Any] = [APath(j["root"]), [APath(x) for x in j.get("lookup", [])]]
+        else:
+            args = [[APath(x) if j.get("as_paths", True) else x for x in j["targets"]], [APath(x) for x in j.get("roots", [])], [APath(x) for x in j.get("lookup", [])]]
+        if h is not None:
+            args.append(h)
+        out = self.read(j["files"], entry=entry, args=args, kwargs=dict(j.get("kwargs", {})), cwd=j.get("cwd"))
+        out.pop("result", None)
+        out["opened"] = list(self.opened)
+        if h is not None:
+            out["prints"] = [(str(a[0]), a[1], self.value_digest(a[2]) if len(a) > 2 else None) for _, a, _ in h.log]
+        return out
+
+    def read_many(self, jobs: List[Dict[str, Any]]) -> List[Dict[str, Any]]:
+        import os
+
+        n = int(os.environ.get("SA_INNER_JOBS", "0") or 0) or min(16, os.cpu_count() or 2)
+        if n <= 1 or len(jobs) < 2:
+            return [self.job(j) for j in jobs]
+        import multiprocessing
+        from concurrent.futures import ProcessPoolExecutor
+
+        _SHARED["fe"], _SHARED["jobs"] = self, jobs
+        try:
+            # forked workers inherit the parsed repository and this front end; nothing is pickled on the way in
+            with ProcessPoolExecutor(max_workers=min(n, len(jobs)), mp_context=multiprocessing.get_context("fork")) as ex:
+                outs = list(ex.map(_shared_job, range(len(jobs))))
+            for o in outs:
+                if "analysis_error" in o:
+                    raise AnalysisError(o["analysis_error"])
+            return outs
+        finally:
+            _SHARED.clear()
+
+    def _digests(self, out: Dict[str, Any]) -> Dict[str, Any]:
         r = out["result"]
         if r is not None:
             seq = r if isinstance(r, (list, tuple)) and not (len(r) == 2 and isinstance(r[0], list)) else r
